@@ -176,14 +176,14 @@ static Plan shrink(Plan p, const ExecOpts& eo, const std::string& key, int* reru
 
 int main(int argc, char** argv) {
   std::string engine = "stop", prop, replay, shrinkf, out, knownf, scratch = "", tier = "quick", oracle_key, dumpseed;
-  uint64_t rawseed = 0; uint64_t seed0 = 1; long start = 0, stride = 1, count = 100; double deadline = 1e18; bool sacrificial = false, verbose = false;
+  uint64_t rawseed = 0; uint64_t seed0 = 1; long start = 0, stride = 1, count = 100, limit = -1; double deadline = 1e18; bool sacrificial = false, verbose = false;
   for (int i = 1; i < argc; i++) {
     std::string a = argv[i]; auto nxt = [&]() { return std::string(i + 1 < argc ? argv[++i] : ""); };
     if (a == "--engine") engine = nxt(); else if (a == "--prop") prop = nxt(); else if (a == "--replay") replay = nxt();
     else if (a == "--shrink") shrinkf = nxt(); else if (a == "--out") out = nxt(); else if (a == "--known") knownf = nxt();
     else if (a == "--scratch") scratch = nxt(); else if (a == "--tier") tier = nxt(); else if (a == "--key") oracle_key = nxt();
     else if (a == "--seed0") seed0 = strtoull(nxt().c_str(), nullptr, 10); else if (a == "--start") start = atol(nxt().c_str());
-    else if (a == "--stride") stride = atol(nxt().c_str()); else if (a == "--count") count = atol(nxt().c_str());
+    else if (a == "--stride") stride = atol(nxt().c_str()); else if (a == "--count") count = atol(nxt().c_str()); else if (a == "--limit") limit = atol(nxt().c_str());
     else if (a == "--deadline") deadline = atof(nxt().c_str()); else if (a == "--sacrificial") sacrificial = true; else if (a == "--verbose") verbose = true;
     else if (a == "--dump") dumpseed = nxt();
     else if (a == "--rawseed") rawseed = strtoull(nxt().c_str(), nullptr, 10);
@@ -231,6 +231,7 @@ int main(int argc, char** argv) {
   double t0 = now_s();
   for (long n = 0; n < count; n++) {
     if (now_s() - t0 > deadline) break;
+    if (limit >= 0 && start + n * stride >= limit) break;
     uint64_t seed = rawseed ? rawseed : mix(seed0, (uint64_t)(start + n * stride));
     printf("B %llu %ld\n", (unsigned long long)seed, start + n * stride); fflush(stdout);
     Plan p = generate_plan(engine, seed, go);
